@@ -485,6 +485,7 @@ func modelCheck(r *fw.Rec, tree jast.Node, doc interface{}, tag string, op judge
 // model would double a memory footprint of several hundred megabytes).
 func c03LargestRange(r *fw.Rec) {
 	prog := "$count([-4999999..5000000])"
+	r.ExpectCost(4)
 	r.Begin(prog, "")
 	r.Tag("probe:largest-range")
 	r.Nontrivial(prog)
